@@ -523,6 +523,13 @@ fn lib_fit(x: &[f64], p: usize) -> Result<(Vec<f64>, f64), String> {
 fn lib_predict(x: &[f64], p: usize, h: usize) -> Result<(Vec<f64>, f64, Vec<f64>, f64), String> {
     catch(|| {
         let mut ar = ts::AR::new(p);
+        // one model in three has been fitted before, to another valid series (reversed, shifted and rescaled):
+        // the fit must depend on the series it is given, not on what the object held
+        let pre = (x.len() + p + h) % 3 == 0;
+        if pre {
+            let other: Vec<f64> = x.iter().rev().map(|v| 1000.0 + 3.0 * v).collect();
+            ar.fit(&other);
+        }
         ar.fit(x);
         let f = ar.predict(x, h);
         let one = ar.predict_one(x);
